@@ -9,6 +9,8 @@ import ast
 
 from ..model import AnalysisError, dotted_name, methods, norm, walk_no_nested
 from ..solvercfg import OPERATORS, SOLVER, TOKENS
+from . import common as K
+from ..model import qualname
 
 LEVEL_TEXT = ("static analysis (ast): kill/use ordering of instance state in ExpressionSolver.solve, write "
               "sets of the solver classes and construction sites of the buffers; a structural argument that holds "
@@ -361,8 +363,37 @@ def _written_class_attrs(mod):
     return out
 
 
+GLOBAL_SETTERS = {"np.seterr": "np.errstate / try-finally", "numpy.seterr": "np.errstate / try-finally", "np.seterrcall": "try-finally", "np.set_printoptions": "np.printoptions",
+                  "warnings.simplefilter": "warnings.catch_warnings", "warnings.filterwarnings": "warnings.catch_warnings", "sys.setrecursionlimit": "try-finally",
+                  "locale.setlocale": "try-finally", "random.seed": "a local Random instance", "np.random.seed": "a local Generator", "decimal.setcontext": "decimal.localcontext",
+                  "os.chdir": "try-finally", "os.putenv": "-"}
+
+
+def r4_no_process_state(ctx):
+    """A solve leaves nothing behind outside its own instance: no module-level container of the solver package is
+    written from a function, no function is memoised, and an interpreter-wide setting (NumPy error mode, warning
+    filters, recursion limit, locale, random seed, decimal context) is changed only under a construct that restores it
+    on every exit - a context manager, or a try whose finally block calls the same setter again."""
+    K.hidden_module_state(ctx, ["src/scinumtools/solver"], {}, "a later solve must not see anything an earlier (possibly failed) solve left behind")
+    n = 0
+    for mod in ctx.repo.all_modules("src/scinumtools/solver"):
+        for fn in [x for x in ast.walk(mod.tree) if isinstance(x, (ast.FunctionDef, ast.AsyncFunctionDef))]:
+            n += 1
+            finals = [t for t in ast.walk(fn) if isinstance(t, ast.Try) and t.finalbody]
+            for c in [x for x in ast.walk(fn) if isinstance(x, ast.Call) and dotted_name(x.func) in GLOBAL_SETTERS]:
+                name = dotted_name(c.func)
+                restored = any(any(c is y for b in t.body for y in ast.walk(b)) and any(isinstance(z, ast.Call) and dotted_name(z.func) == name for f_ in t.finalbody for z in ast.walk(f_))
+                               for t in finals) or any(any(c is y for f_ in t.finalbody for y in ast.walk(f_)) for t in finals)
+                if not restored:
+                    ctx.violated(mod.relpath, qualname(fn), "an interpreter-wide setting is changed only under a construct that restores it on every exit",
+                                 detail=f"{norm(c)[:70]} with no finally that calls {name} again", expected=GLOBAL_SETTERS[name])
+    ctx.floor("solver functions scanned for interpreter-wide settings", n, 20)
+    ctx.holds("-", "-", "scan for interpreter-wide setters completed")
+
+
 RULES = [
     ("C02.R1", "every instance field written outside __init__ by solve() or the Tokens methods is re-initialised unconditionally before its first use in solve() (or on all exits by try/finally)", r1_kill_before_use),
     ("C02.R2", "operators/steps and operator class attributes are never written after construction", r2_config_readonly),
     ("C02.R3", "token buffers are fresh containers created in Tokens.__init__; no shared mutable class-level defaults in the solver classes", r3_per_instance),
+    ("C02.R4", "nothing process-wide is left behind: no module-level container of solver/ written from a function, no memoised function, interpreter-wide settings (np.seterr, warning filters, ...) only under a restoring construct", r4_no_process_state),
 ]
